@@ -144,18 +144,17 @@ func MultIteratorFromDense(tts ...DenseTensor) *MultIterator {
 	runtime.SetFinalizer(it, destroyIterator)
 
 	if masked {
-		// create new mask slice if more than tensor is masked
-		if numMasked > 1 {
-			it.mask = BorrowBools(it.shape.TotalSize())
-			memsetBools(it.mask, false)
-			for i, err := it.Start(); err == nil; i, err = it.Next() {
-				for j, k := range it.lastIndexArr {
-					if hasMask[j] {
-						it.mask[i] = it.mask[i] || tts[j].(MaskedTensor).Mask()[k]
-					}
+		// the combined mask: a position is invalid if it is masked in any operand
+		it.mask = BorrowBools(it.shape.TotalSize())
+		memsetBools(it.mask, false)
+		for i, err := it.Start(); err == nil; i, err = it.Next() {
+			for j, k := range it.lastIndexArr {
+				if hasMask[j] {
+					it.mask[i] = it.mask[i] || tts[j].(MaskedTensor).Mask()[k]
 				}
 			}
 		}
+		it.Reset() // building the mask walked the iterator to its end
 	}
 	it.numMasked = numMasked
 	return it
@@ -176,7 +175,7 @@ func destroyMultIterator(it *MultIterator) {
 		ReturnInts(it.strides)
 		it.strides = nil
 	}
-	if it.numMasked > 1 {
+	if it.numMasked > 0 {
 		if cap(it.mask) > 0 {
 			ReturnBools(it.mask)
 			it.mask = nil
